@@ -27,6 +27,7 @@ type ObResult struct {
 	FailPath string   `json:"fail_path,omitempty"`
 	Raw      string   `json:"-"`
 	Query    string   `json:"-"`
+	Ctx      *FnCtx   `json:"-"`
 	Props    []string `json:"props,omitempty"`
 	SmtBytes int      `json:"smt_bytes"`
 }
@@ -102,6 +103,10 @@ func (e *Engine) VerifyFunc(fn *ssa.Function, mode string) (rep *FuncReport) {
 		v.Origin = prm.Name()
 		fr.regs[prm] = v
 		env[prm.Name()] = v
+		if c.paramVals == nil {
+			c.paramVals = map[string]Val{}
+		}
+		c.paramVals[prm.Name()] = v
 		c.assumeWorld(p, v, prm.Type())
 		if i == 0 && fn.Signature.Recv() != nil && v.K == KPtr {
 			p.assume(fmt.Sprintf("(not (= %s 0))", v.T))
@@ -507,12 +512,39 @@ func Discharge(obs []*Obligation, opt runOpts) []*ObResult {
 	}
 	var wg sync.WaitGroup
 	sem := make(chan struct{}, opt.workers)
+	// an obligation is the conjunction of its path queries: once one path has a countermodel (or two paths are
+	// undecided) the obligation is not discharged whatever the other paths say, so they are not run (a broken
+	// function would otherwise cost paths x 20 s x 3 solvers)
+	var stMu sync.Mutex
+	nFailed := map[string]int{}
+	nUndec := map[string]int{}
 	for _, j := range jobs {
 		wg.Add(1)
 		sem <- struct{}{}
 		go func(j *job) {
 			defer wg.Done()
 			defer func() { <-sem }()
+			stMu.Lock()
+			skip := !j.ob.WantSat && (nFailed[j.ob.Name] > 0 || nUndec[j.ob.Name] >= 2)
+			stMu.Unlock()
+			if skip {
+				j.res = SolveResult{Status: "skipped", Solver: "", Raw: "not run: another path of this obligation already failed"}
+				return
+			}
+			defer func() {
+				if j.ob.WantSat {
+					return
+				}
+				stMu.Lock()
+				switch j.res.Status {
+				case "unsat":
+				case "sat":
+					nFailed[j.ob.Name]++
+				default:
+					nUndec[j.ob.Name]++
+				}
+				stMu.Unlock()
+			}()
 			j.q = buildQuery(j.ob)
 			if len(j.q) > 2_000_000 {
 				j.res = SolveResult{Status: "error", Raw: "query exceeds size cap"}
@@ -549,6 +581,9 @@ func Discharge(obs []*Obligation, opt runOpts) []*ObResult {
 			order = append(order, j.ob.Name)
 		}
 		r.Paths++
+		if j.res.Status == "skipped" {
+			continue
+		}
 		r.TimeS += j.res.Time
 		if j.res.Time > r.MaxS {
 			r.MaxS = j.res.Time
@@ -585,6 +620,7 @@ func Discharge(obs []*Obligation, opt runOpts) []*ObResult {
 			r.FailPath = j.ob.Path
 			r.Raw = j.res.Raw
 			r.Query = j.q
+			r.Ctx = j.ob.Ctx
 			if j.ob.Src != "" {
 				r.Src = j.ob.Src
 			}
